@@ -742,6 +742,7 @@ pub fn shrink_read(scn: &ReadScn) -> Vec<ReadScn> {
     for i in 0..n {
         let simpler = match &scn.ops[i] {
             Op::ReadSetExact(_, _) | Op::ReadSet(_) | Op::OwnedNext | Op::Drain => Some(Op::Next),
+            Op::ShrinkSet(_) => Some(Op::IterSet(0)),
             _ => None,
         };
         if let Some(op) = simpler {
